@@ -521,6 +521,12 @@ func TestC20Module(t *testing.T) {
 			t.Fatalf("%s", msg)
 		}
 		if msg != "" {
+			if strings.HasPrefix(msg, fmt.Sprintf("pam_sm_authenticate returned %d,", pamSuccess)) || strings.HasPrefix(msg, "sanitizer report") || strings.HasPrefix(msg, "the process was killed") {
+				// success without an OK reply, a memory error or a fatal signal has happened, whether or not a re-run of the same
+				// case takes the same path through the races between the module's writes and the server's close: recorded by the
+				// harness, so that rapid's "flaky" verdict on the re-run cannot drop it
+				vlib.Violation(msg+" | case: "+fmt.Sprintf("%+v", describe(c)), "TestC20Module", describe(c))
+			}
 			t.Fatalf("VIOLATION C20: %s\ncase: %+v", msg, describe(c))
 		}
 		slow := false
